@@ -81,6 +81,23 @@ def rc(rng, s=1.0):
     return complex(rng.gauss(0, s), rng.gauss(0, s))
 
 
+def z0_vector(rng, n):
+    """reference impedances with structure: all equal, independent, drawn from a small palette (so that some but not
+    all ports coincide, in any position), equal real parts with different imaginary parts, sorted, real only"""
+    r = rng.random()
+    if r < 0.25:
+        return [complex(50, 0)] * n
+    if r < 0.45:
+        return [complex(rng.uniform(1, 150), rng.gauss(0, 30) if rng.random() < 0.5 else 0) for _ in range(n)]
+    pal = rng.choice([[50 + 0j, 75 + 0j], [50 + 0j, 75 + 0j, 100 + 0j], [50 + 3j, 75 + 10j, 75 - 25j, 50 - 8j], [10 + 0j, 10 + 5j, 200 + 0j]])
+    z0 = [rng.choice(pal) for _ in range(n)]
+    if r < 0.60:
+        z0.sort(key=lambda z: (z.real, z.imag))
+    elif r < 0.70:
+        z0.sort(key=lambda z: (-z.real, z.imag))
+    return z0
+
+
 def run_numeric(chk, exe, rng, broken, scale=1):
     tier = chk.tier
     per = (25 if tier == 'quick' else 600) * scale
@@ -91,10 +108,7 @@ def run_numeric(chk, exe, rng, broken, scale=1):
             M = np.array([[rc(rng) for _ in range(n)] for _ in range(n)], complex).reshape(n, n)
             if NFUNCS[fn][0] in 'zy' and n:
                 M = M * rng.choice([1, 50, 0.02])
-            if rng.random() < 0.5:
-                z0 = [complex(50, 0)] * n
-            else:
-                z0 = [complex(rng.uniform(1, 150), rng.gauss(0, 30) if rng.random() < 0.5 else 0) for _ in range(n)]
+            z0 = z0_vector(rng, n)
             mode = 'alias' if (NFUNCS[fn][1] != 'zi' and k % 3 == 2) else 'sep'
             cases.append((fn, n, mode, M, z0))
             lines.append('convn %s %d %s %s %s' % (fn, n, mode, ' '.join(vlib.c2h(x) for x in M.flatten()),
